@@ -1,5 +1,6 @@
 import Sx.Lemmas.FloatSigned
 import Sx.Lemmas.FloatOps
+import Sx.Lemmas.RxLen
 /-
   C12 — physical quantities are encoded and decoded within one register step.
 
@@ -299,6 +300,30 @@ theorem C12_snr (v : UInt8) : F.eq (snrOf v) (.fin ((int8 v : Rat) / 4)) = true 
 
 /-- **C12, FSK RSSI decode.** `-RssiValue / 2` dBm, truncated toward zero, for all 256 values. -/
 theorem C12_fsk_rssi : ∀ v : UInt8, fskRssiOf v = -((v.toNat / 2 : Nat) : Int) := fun _ => rfl
+
+/-- **C12, raw temperature decode.** The datasheet's reference conversion of RegTemp (-1 degree per
+    LSB, two branches on bit 7): `255 - RegTemp` when bit 7 is set, `-RegTemp` otherwise, for all
+    256 values; the result always fits the `int8_t` it is returned in (no implementation-defined
+    narrowing), and the two branches cover 0..127 and -127..0. -/
+theorem C12_raw_temperature_bv : ∀ b : BitVec 8,
+    rawTemperatureOf ⟨b⟩ = (if 128 ≤ b.toNat then ((255 - b.toNat : Nat) : Int) else -(b.toNat : Int)) ∧
+    -128 ≤ rawTemperatureOf ⟨b⟩ ∧ rawTemperatureOf ⟨b⟩ ≤ 127 := by
+  decide +kernel
+
+theorem C12_raw_temperature (v : UInt8) :
+    rawTemperatureOf v = (if 128 ≤ v.toNat then ((255 - v.toNat : Nat) : Int) else -(v.toNat : Int)) ∧
+    -128 ≤ rawTemperatureOf v ∧ rawTemperatureOf v ≤ 127 := C12_raw_temperature_bv v.toBitVec
+
+/-- … and the call returns exactly that for the byte the chip holds in RegTemp, for every answer
+    of the chip, with no write -/
+theorem C12_raw_temperature_call (h : Handle) :
+    (fskOokGetRawTemperature h).fwp false (fun _ rh => ∀ t, rh.1 = .ok t → ∃ v : UInt8, t = rawTemperatureOf v) := by
+  unfold fskOokGetRawTemperature checkFskOok
+  simp only [DM.fwp_bind', DM.fwp_getH, DM.fwp_rread, DM.fwp_pure, DM.fwp_ite, DM.fwp_fail]
+  split
+  · intro t e; cases e
+  · refine ⟨fun v t e => ⟨v, ?_⟩, fun c t e => by cases e⟩
+    cases e; rfl
 
 /-- **C12, packet strength (LoRa).** For every RegPktRssiValue, every RegPktSnrValue and either
     port offset: the refined value `sx127x_rx_get_packet_rssi` computes for a negative SNR is the
